@@ -227,7 +227,7 @@ Theorem selection_total_wf_carrier_all (p : profile) (a : algo) (meth : method) 
   meth = Single \/ meth = Complete ->
   (n < two32)%N -> wf_shape n (N.of_nat (length m)) ->
   Forall (fun v => ok v = true) m ->
-  Forall (fun v => f_ltb F v (f_max F) = true) m ->
+  Forall (fun v => f_ltb F v (f_inf F) = true) m ->
   (exists s' d' m', run_with F p a meth s d m n = Ok (s', d', m') /\ wf_dend (d_obs d') (d_steps d'))
   \/ run_with F p a meth s d m n = Panic PNaN.
 Proof.
@@ -241,7 +241,7 @@ Proof.
                   ltac:(apply Forall_forall; intros; exact I)) as Hoo.
     rewrite Hm1 in Hoo.
     assert (Hshape1 : wf_shape n (N.of_nat (length m1))) by (rewrite <- Hm1, map_length in Hshape; exact Hshape).
-    assert (Hmax1 : Forall (fun v => f_ltb FS v (f_max FS) = true) m1).
+    assert (Hmax1 : Forall (fun v => f_ltb FS v (f_inf FS) = true) m1).
     { rewrite Forall_forall in Hmax |- *. intros v Hv. apply (Hmax (g v)). rewrite <- Hm1. apply in_map. exact Hv. }
     cbn [run_with] in Hoo |- *.
     destruct (@generic_selection_total_wf sub FS p FS_irrefl FS_trans FS_negtrans FS_eqb_refl meth (st_new sub) (d_new sub 0) m1 n Hmeth Hn Hshape1 Hmax1)
@@ -276,7 +276,7 @@ Theorem single_cuts_carrier (p : profile) (a : algo) s d (m : list T) (n : N) s'
   run_with F p a Single s d m n = Ok (s', d', m') ->
   prologue p m n = Ok M0 -> 1 <= m_obs M0 ->
   Forall (fun v => ok v = true) m ->
-  Forall (fun v => f_ltb F v (f_max F) = true) m ->
+  Forall (fun v => f_ltb F v (f_inf F) = true) m ->
   forall t : T, ok t = true ->
   exists j, j <= m_obs M0 - 1 /\ cut_at KF t j (heights d')
     /\ forall x y, x < m_obs M0 -> y < m_obs M0 ->
@@ -300,7 +300,7 @@ Proof.
     destruct (obs_to_nat q) as [q'| |]; cbn [bind] in *; try discriminate.
     inversion HM0; inversion HM1; subst. cbn [m_data m_obs]. reflexivity. }
   assert (Hobs : m_obs M0 = m_obs M1) by (rewrite HM01; reflexivity).
-  assert (Hmax1 : Forall (fun v => f_ltb FS v (f_max FS) = true) m1).
+  assert (Hmax1 : Forall (fun v => f_ltb FS v (f_inf FS) = true) m1).
   { rewrite Forall_forall in Hmax |- *. intros v Hv. apply (Hmax (g v)). rewrite <- Hm1. apply in_map. exact Hv. }
   assert (Hcuts : exists j, j <= m_obs M1 - 1 /\ cut_at KS (exist _ t Ht) j (heights d1)
             /\ forall x y, x < m_obs M1 -> y < m_obs M1 ->
